@@ -1458,7 +1458,21 @@ impl<'a> Sem<'a> {
             positional.push((self.here(), ci.targs[i].0.clone()));
             let t = ci.targs[i].1.clone();
             let v0 = self.here();
-            self.value(&t, depth + 1);
+            if matches!(t, Ty::Int | Ty::Str | Ty::Bit) && self.rng.chance(1, 10) && self.on("cond") {
+                // an argument that begins with `!cond` (an operator of its own kind to lexer and parser)
+                let st = self.here();
+                self.p.feat.bang_ops += 1;
+                self.w("!cond(");
+                self.value(&Ty::Bit, depth + 2);
+                self.w(": ");
+                self.value(&t, depth + 2);
+                self.w(", true: ");
+                self.value(&t, depth + 2);
+                self.w(")");
+                self.span("cond", st);
+            } else {
+                self.value(&t, depth + 1);
+            }
             let r = (v0, self.here());
             self.p.typed_sites.push((self.cur, r, t, "template-arg"));
         }
